@@ -63,3 +63,32 @@ func init() {
 		})
 	}
 }
+
+// dumpBounds prints the bounds-prover verdict for every index/slice site of the named functions.
+func dumpBounds(rel string, names []string) {
+	c := newCtx("DUMP", "quick")
+	c.Load()
+	c.SSA()
+	var fs []*ssa.Function
+	if len(names) == 1 && names[0] == "ALL" {
+		fs = c.SrcFuncs(rel)
+	} else {
+		for _, n := range names {
+			if f := c.Fn(rel, n); f != nil {
+				fs = append(fs, f)
+			}
+		}
+	}
+	ok, bad := 0, 0
+	for _, f := range fs {
+		for _, s := range checkBounds(f) {
+			if s.ok {
+				ok++
+			} else {
+				bad++
+				fmt.Printf("UNPROVEN %s · %s at %s  residual %s\n", funcKey(f), abbr(s.desc), c.pos(s.in.Pos()), s.goal)
+			}
+		}
+	}
+	fmt.Printf("proven %d, unproven %d\n", ok, bad)
+}
